@@ -115,6 +115,8 @@ def run(chk, repo: Repo):
         _r6(chk, repo, ci)
     _r2_solvers(chk, repo)
     _r3_experimental(chk, repo, base, recorded)
+    _r3_single_loop_definition(chk, repo, base, samplers)
+    _r5_pure_accessors(chk, repo, base)
     _r5(chk, repo, base, samplers)
     _r7(chk, repo, base)
     _legacy(chk, repo)
@@ -294,6 +296,37 @@ def _r2_solvers(chk, repo):
     if nfun < 10:
         raise AnchorError(f"cuqi/solver: {nfun} functions analysed, at least 10 expected")
     chk.ok("C14-R2", "cuqi/solver/*", "cuqi/solver/_solver.py:1", f"{nfun} solver functions, {nops} in-place operations, none reaches a constructor-stored field or a parameter")
+
+
+def _r3_single_loop_definition(chk, repo, base, samplers):
+    """The chain loop (one transition, one record, one callback per iteration, each transition consuming the random stream on its own) is defined once, in
+    the base class: no concrete sampler replaces sample() / warmup().  A sampler that fetches all its draws in one vectorised call consumes the stream per
+    CALL, so sample(N); sample(M) differs from sample(N + M) and a restored checkpoint does not continue like the uninterrupted run."""
+    for ci in samplers:
+        for m in ("sample", "warmup"):
+            owner = ci.lookup(m)
+            ok = owner is not None and owner[0].qual == base.qual
+            where = site(repo, owner[1]) if owner is not None else f"{ci.module.rel}:{ci.node.lineno}"
+            chk.add("C14-R3", f"{ci.qual}.{m}/defined-by-base", ok, where, f"{m}() is the base class's chain loop",
+                    f"{ci.name} replaces {m}() of the base sampler ({owner[0].qual if owner else 'missing'}): the chain-loop contract (per-iteration transition, record, callback, "
+                    f"stream consumption independent of how a run is split) is no longer the one decided for the base class", owner[1] if owner else None)
+
+
+def _r5_pure_accessors(chk, repo, base):
+    """get_samples / get_state / get_history report the sampler, they do not change it: no attribute of self is written (a converted-samples cache kept on the
+    sampler is not part of the history keys, so reinitialize() / set_history() leave it alive and a later get_samples() returns the previous run's chain)."""
+    hg = repo.cls("cuqi/experimental/mcmc/_gibbs.py:HybridGibbs")
+    for ci in (base, hg):
+        se = OpaqueInit(repo, ci)
+        for m in ("get_samples", "get_state", "get_history"):
+            if ci.lookup(m) is None:
+                continue
+            sm = se.method_summary(m)
+            w = sorted(sm.may_w | sm.mutates)
+            fn = ci.lookup(m)[1]
+            chk.add("C14-R5", f"{ci.qual}.{m}/pure", not w, site(repo, fn), "read accessor writes no attribute of the sampler",
+                    f"{m}() writes {['self.' + x for x in w]}: state kept by a read accessor is outside the state / history key sets, so it survives reinitialize(), "
+                    f"set_history() and load_checkpoint() and the accessor can report a chain that is not the recorded one", fn)
 
 
 # ------------------------------------------------------------------------------------------------ R3
